@@ -150,6 +150,8 @@ def finish(prop, modname, mod, tier, seed, cases, results, not_run, t0, args, se
         if r.get("sample") and len(samples) < 6 and (len(samples) < 2 or r["idx"] % 97 == 0):
             samples.append({"case": lab, "cfg": cfg, "definition": r["case"].get("text") or r["case"].get("T"),
                             "paths": r["paths"], **r["sample"]})
+    heavy = sorted(((r.get("wall_s", 0), r.get("paths", 0), r["case"].get("label"), str(r["case"].get("cfg"))) for r in results if "case" in r),
+                   reverse=True)[:8]
     # ---- confirm counterexamples on the un-instrumented library
     confirmed, unreproduced = replay_batch(prop, modname, candidates)
     known_confirmed, known_unrep = replay_batch(prop, modname, known, write_files=False)
@@ -186,6 +188,7 @@ def finish(prop, modname, mod, tier, seed, cases, results, not_run, t0, args, se
             "out_of_bound_paths": oob, "outcome_classes": outcomes,
             "functions_encoded": sorted(funcs), "models_used": sorted(models),
             "solver": {"engine": "z3 " + _z3v(), "queries": agg["queries"], "solver_s": round(agg["solver_s"], 2)},
+            "heaviest_cases": [{"wall_s": h[0], "paths": h[1], "case": h[2], "cfg": h[3]} for h in heavy],
             "bounds": getattr(mod, "BOUNDS", {}).get(tier, getattr(mod, "BOUNDS", {}).get("all", "")),
             "known_findings_seen": sorted(kf_seen), "engine_errors": errors[:20], "witness_disagreements": witness_bad[:10],
             "counterexamples_not_reproduced": unreproduced[:10] + known_unrep[:10],
